@@ -1494,6 +1494,284 @@ fn compile_operator_arm(depth: u8, op_expr: &SExpr, ops: &mut Vec<OpCode>, s: &P
         assert(ops@ =~= ops0 + enc(e, base));
     }
 
+// =========================================================================================
+// A7: the LEAF ARMS of the compiler that encode an input / input-history / key-timing test
+// (FRAGMENTS of parse_switch_case_bool, one per match arm).  What stays outside: reading a word of
+// the configuration (atom lookup, number parsing, key-name and virtual-key-name lookup: stubs that
+// return "what the word denotes", uninterpreted) and the error messages.  Proved: the words pushed
+// DECODE (spec_decode, the evaluator's own decoder, A2) to the test the configuration wrote.
+// =========================================================================================
+//@ item parser/src/cfg/switch.rs enum InputType
+//@@ no-derives
+//@ raw
+impl Copy for InputType {}
+impl Clone for InputType { fn clone(&self) -> Self { *self } }
+//@ item parser/src/custom_action.rs struct Coord
+//@@ keep-vis
+//@@ no-derives
+//@ raw
+/// rows of the key matrix (docs: real keys are row 0, virtual keys row 1)
+spec fn row_of(t: InputType) -> u8 { match t { InputType::Real => 0, InputType::Virtual => 1 } }
+//@ item parser/src/cfg/switch.rs fn to_row in `InputType`
+//@@ wrap impl InputType
+//@@ ret r
+//@@ spec
+    ensures r == row_of(self),
+//@ raw
+/// synthetic enum for the comparison word of key-timing (R40: the string patterns
+/// `"less-than" | "lt"` / `"greater-than" | "gt"` / `_` become its three variants, 1:1)
+enum VerifCmpWord { LessThan, GreaterThan, Other }
+// what the words of a leaf form denote: uninterpreted (the lookups are outside)
+uninterp spec fn key_type_of(e: SExpr, s: ParserState) -> InputType;
+uninterp spec fn real_code_of(e: SExpr, s: ParserState) -> u16;
+uninterp spec fn vkey_coord_of(e: SExpr, s: ParserState) -> Coord;
+uninterp spec fn u8_of(e: SExpr, s: ParserState) -> u8;
+uninterp spec fn u16_of(e: SExpr, s: ParserState) -> u16;
+uninterp spec fn cmp_of(e: SExpr, s: ParserState) -> VerifCmpWord;
+impl ParserState {
+    /// the largest key-timing threshold seen so far (a Cell in the real struct; decides how long
+    /// the run time keeps key ages)
+    uninterp spec fn max_timing(&self) -> u16;
+    // R41: `s.switch_max_key_timing.get()` / `.set(v)` -> these accessors (Cell field of the opaque state)
+    #[verifier::external_body]
+    fn verif_get_max_timing(&self) -> (r: u16) ensures r == self.max_timing() { unimplemented!() }
+    #[verifier::external_body]
+    fn verif_set_max_timing(&mut self, v: u16)
+        ensures final(self).max_timing() == v,
+            forall|e: SExpr| key_type_of(e, *final(self)) == key_type_of(e, *old(self)),
+    { unimplemented!() }
+}
+/// R38: `match l[1].atom(s.vars()).ok_or_else(..)? { "real" => InputType::Real, "fake" | "virtual"
+/// => InputType::Virtual, _ => bail }` -> this call; the table of the three names is obligation
+/// a7_key_type_names below (read from the arms)
+#[verifier::external_body]
+fn verif_key_type(e: &SExpr, s: &ParserState) -> (r: Result<InputType>)
+    ensures r matches Ok(t) ==> t == key_type_of(*e, *s),
+{ unimplemented!() }
+/// R39: the Real arm `{ let key = l[2].atom(..).ok_or_else(..)?; u16::from(str_to_oscode(key).ok_or_else(..)?) }`
+/// -> this call.  ASSUMED: an OS key code is at most 767 (decided for every code by C11's harnesses)
+#[verifier::external_body]
+fn verif_real_key(e: &SExpr, s: &ParserState) -> (r: Result<u16>)
+    ensures r matches Ok(c) ==> c == real_code_of(*e, *s) && c <= 767,
+{ unimplemented!() }
+/// ASSUMED contract of parse_vkey_coord (parser/src/cfg/fake_key.rs): the coordinate of the named
+/// virtual key; at most 768 virtual keys can be defined (checked where they are parsed)
+#[verifier::external_body]
+fn parse_vkey_coord(param: &SExpr, s: &ParserState) -> (r: Result<Coord>)
+    ensures r matches Ok(c) ==> c == vkey_coord_of(*param, *s) && c.y < 768,
+{ unimplemented!() }
+/// ASSUMED contracts of the number readers (parser/src/cfg/mod.rs: str::parse + range test)
+#[verifier::external_body]
+fn parse_u8_with_range(expr: &SExpr, s: &ParserState, label: &str, min: u8, max: u8) -> (r: Result<u8>)
+    ensures r matches Ok(v) ==> v == u8_of(*expr, *s) && min <= v <= max,
+{ unimplemented!() }
+#[verifier::external_body]
+fn parse_u16(expr: &SExpr, s: &ParserState, label: &str) -> (r: Result<u16>)
+    ensures r matches Ok(v) ==> v == u16_of(*expr, *s),
+{ unimplemented!() }
+#[verifier::external_body]
+fn verif_cmp_word(e: &SExpr, s: &ParserState) -> (r: Result<VerifCmpWord>)
+    ensures r matches Ok(c) ==> c == cmp_of(*e, *s),
+{ unimplemented!() }
+/// R19: `ops.extend(&[op1, op2])` -> this helper (ASSUMED Vec::extend contract)
+#[verifier::external_body]
+fn verif_extend2(ops: &mut Vec<OpCode>, a: OpCode, b: OpCode)
+    ensures final(ops)@ == old(ops)@.push(a).push(b),
+{ unimplemented!() }
+// ASSUMED: core::cmp::max on u16 is the larger of the two
+pub uninterp spec fn max_spec<T>(a: T, b: T) -> T;
+#[verifier::allow(undeclared_external_trait)]
+pub assume_specification<T> [core::cmp::max] (a: T, b: T) -> (r: T)
+    where T: core::cmp::Ord + core::marker::Destruct,
+    ensures r == max_spec(a, b);
+#[verifier::external_body]
+broadcast proof fn axiom_max_u16(a: u16, b: u16)
+    ensures #[trigger] max_spec::<u16>(a, b) == (if a >= b { a } else { b }),
+{ unimplemented!() }
+
+/// the coordinate an `(input <type> <key>)` / `(input-history <type> <key> n)` form names
+spec fn input_coord(l: Seq<SExpr>, s: ParserState) -> KCoord {
+    let t = key_type_of(l[1], s);
+    (row_of(t), match t { InputType::Real => real_code_of(l[2], s), InputType::Virtual => vkey_coord_of(l[2], s).y })
+}
+
+//@ fragment parser/src/cfg/switch.rs fn parse_switch_case_bool block-after `AllowedListOps::Input => {` as compile_input_arm
+//@@ header
+fn compile_input_arm(op_expr: &SExpr, ops: &mut Vec<OpCode>, s: &ParserState, l: &[SExpr]) -> Result<()>
+//@@ macro-stmt R13 bail_expr => `return Err(verif_bail());`
+//@@ resub R38 1 /let input_type = match l\[1\]\s*\.atom\(s\.vars\(\)\)\s*\.ok_or_else\(\|\| anyhow_expr!\([^;]*?\)\)\?\s*\{[^}]*\};/ => `let input_type = verif_key_type(&l[1], s)?;`
+//@@ resub R39 1 /InputType::Real => \{\s*let key = l\[2\]\.atom\(s\.vars\(\)\)\.ok_or_else\(\|\| \{\s*anyhow_expr!\([^;]*?\)\s*\}\)\?;\s*u16::from\(\s*str_to_oscode\(key\)\s*\.ok_or_else\(\|\| anyhow_expr!\([^;]*?\)\)\?,\s*\)\s*\}/ => `InputType::Real => verif_real_key(&l[2], s)?,`
+//@@ resub R19 1 /ops\.extend\(&\[op1, op2\]\);/ => `verif_extend2(ops, op1, op2);`
+//@@ ret r
+//@@ spec
+    ensures
+        r is Err ==> final(ops)@ == old(ops)@,
+        r is Ok ==> l@.len() == 3 && final(ops)@.len() == old(ops)@.len() + 2
+            && final(ops)@.subrange(0, old(ops)@.len() as int) == old(ops)@
+            // the two words are an "input is active" test of the coordinate that was written
+            && spec_decode(final(ops)@[old(ops)@.len() as int].0, Some(final(ops)@[old(ops)@.len() as int + 1]))
+                == OpCodeType::Input(input_coord(l@, *s)),
+
+//@ fragment parser/src/cfg/switch.rs fn parse_switch_case_bool block-after `AllowedListOps::InputHistory => {` as compile_input_history_arm
+//@@ header
+fn compile_input_history_arm(op_expr: &SExpr, ops: &mut Vec<OpCode>, s: &ParserState, l: &[SExpr]) -> Result<()>
+//@@ macro-stmt R13 bail_expr => `return Err(verif_bail());`
+//@@ resub R38 1 /let input_type = match l\[1\]\s*\.atom\(s\.vars\(\)\)\s*\.ok_or_else\(\|\| anyhow_expr!\([^;]*?\)\)\?\s*\{[^}]*\};/ => `let input_type = verif_key_type(&l[1], s)?;`
+//@@ resub R39 1 /InputType::Real => \{\s*let key = l\[2\]\.atom\(s\.vars\(\)\)\.ok_or_else\(\|\| \{\s*anyhow_expr!\([^;]*?\)\s*\}\)\?;\s*u16::from\(\s*str_to_oscode\(key\)\s*\.ok_or_else\(\|\| anyhow_expr!\([^;]*?\)\)\?,\s*\)\s*\}/ => `InputType::Real => verif_real_key(&l[2], s)?,`
+//@@ resub R19 1 /ops\.extend\(&\[op1, op2\]\);/ => `verif_extend2(ops, op1, op2);`
+//@@ ret r
+//@@ spec
+    ensures
+        r is Err ==> final(ops)@ == old(ops)@,
+        r is Ok ==> l@.len() == 4 && final(ops)@.len() == old(ops)@.len() + 2
+            && final(ops)@.subrange(0, old(ops)@.len() as int) == old(ops)@
+            // .. an "n-th most recent input was" test of that coordinate; the configuration counts from 1
+            && 1 <= u8_of(l@[3], *s) <= 8
+            && spec_decode(final(ops)@[old(ops)@.len() as int].0, Some(final(ops)@[old(ops)@.len() as int + 1]))
+                == OpCodeType::HistoricalInput(HistoricalInput { input: input_coord(l@, *s), how_far_back: (u8_of(l@[3], *s) - 1) as u8 }),
+
+//@ fragment parser/src/cfg/switch.rs fn parse_switch_case_bool block-after `AllowedListOps::KeyTiming => {` as compile_key_timing_arm
+//@@ header
+fn compile_key_timing_arm(op_expr: &SExpr, ops: &mut Vec<OpCode>, s: &mut ParserState, l: &[SExpr]) -> Result<()>
+//@@ macro-stmt R13 bail_expr => `return Err(verif_bail());`
+//@@ resub R40 1 /match l\[2\]\.atom\(s\.vars\(\)\)\.ok_or_else\(\|\| \{\s*anyhow_expr!\([^;]*?\)\s*\}\)\? \{/ => `match verif_cmp_word(&l[2], s)? {`
+//@@ resub R40 1 /"less-than" \| "lt" =>/ => `VerifCmpWord::LessThan =>`
+//@@ resub R40 1 /"greater-than" \| "gt" =>/ => `VerifCmpWord::GreaterThan =>`
+//@@ resub R40 1 /_ => \{/ => `VerifCmpWord::Other => {`
+//@@ resub R41 * /s\s*\.switch_max_key_timing\s*\.set\(/ => `s.verif_set_max_timing(`
+//@@ resub R41 * /s\s*\.switch_max_key_timing\s*\.get\(\)/ => `s.verif_get_max_timing()`
+//@@ resub R41 * /std::cmp::max\(/ => `core::cmp::max(`
+//@@ before-re 1 /if l\.len\(\)/
+    broadcast use axiom_max_u16;
+//@@ ret r
+//@@ spec
+    ensures
+        r is Err ==> final(ops)@ == old(ops)@,
+        r is Ok ==> l@.len() == 4 && final(ops)@.len() == old(ops)@.len() + 1
+            && final(ops)@.subrange(0, old(ops)@.len() as int) == old(ops)@
+            && 1 <= u8_of(l@[1], *old(s)) <= 8
+            && !(cmp_of(l@[2], *old(s)) is Other),
+            // the word is a "ticks since the n-th most recent key" test, in the direction written,
+            // with the written threshold in its compressed form
+        r is Ok ==> spec_decode(final(ops)@[old(ops)@.len() as int].0, None) == (
+                if cmp_of(l@[2], *old(s)) is LessThan {
+                    OpCodeType::TicksSinceLessThan(TicksSinceNthKey { nth_key: (u8_of(l@[1], *old(s)) - 1) as u8, ticks_since: spec_decompress(spec_compress(u16_of(l@[3], *old(s)) as int)) as u16 })
+                } else {
+                    OpCodeType::TicksSinceGreaterThan(TicksSinceNthKey { nth_key: (u8_of(l@[1], *old(s)) - 1) as u8, ticks_since: spec_decompress(spec_compress(u16_of(l@[3], *old(s)) as int)) as u16 })
+                }),
+        // and the run time is told to keep key ages at least this long
+        r is Ok ==> final(s).max_timing() >= u16_of(l@[3], *old(s))
+            && final(s).max_timing() >= old(s).max_timing()
+            && (final(s).max_timing() == old(s).max_timing() || final(s).max_timing() == u16_of(l@[3], *old(s))),
+
+//@ raw
+/// an OS key code as the parser's name table returns it: opaque; `.into()` gives the KeyCode of the
+/// same number (ASSUMED here; the conversion is C11's subject)
+#[verifier::external_body]
+pub struct OsCode { verif_opaque: u8 }
+impl OsCode { pub uninterp spec fn kc(&self) -> KeyCode; }
+impl vstd::std_specs::convert::FromSpecImpl<OsCode> for KeyCode {
+    open spec fn obeys_from_spec() -> bool { true }
+    open spec fn from_spec(o: OsCode) -> Self { o.kc() }
+}
+impl From<OsCode> for KeyCode {
+    #[verifier::external_body]
+    fn from(o: OsCode) -> (r: KeyCode) ensures r == o.kc() { unimplemented!() }
+}
+uninterp spec fn key_of(e: SExpr, s: ParserState) -> OsCode;
+uninterp spec fn key_of_name(a: &str) -> OsCode;
+uninterp spec fn layer_of(e: SExpr, s: ParserState) -> u16;
+/// R39: `l[1].atom(s.vars()).and_then(str_to_oscode).ok_or_else(..)?` -> this call (name lookup outside)
+#[verifier::external_body]
+fn verif_key(e: &SExpr, s: &ParserState) -> (r: Result<OsCode>)
+    ensures r matches Ok(o) ==> o == key_of(*e, *s),
+{ unimplemented!() }
+/// R39: `str_to_oscode(a).ok_or_else(..)?` -> this call
+#[verifier::external_body]
+fn verif_key_of_name(a: &str) -> (r: Result<OsCode>)
+    ensures r matches Ok(o) ==> o == key_of_name(a),
+{ unimplemented!() }
+/// R39: `l[1].atom(s.vars()).and_then(|atom| s.layer_idxs.get(atom)).map(|idx| { assert!(*idx <
+/// MAX_LAYERS); *idx as u16 }).ok_or_else(..)?` -> this call.  ASSUMED: a layer index is below
+/// MAX_LAYERS (the `assert!` inside the closure is NOT decided here)
+#[verifier::external_body]
+fn verif_layer_idx(e: &SExpr, s: &ParserState) -> (r: Result<u16>)
+    ensures r matches Ok(v) ==> v == layer_of(*e, *s) && (v as usize) < crate::layout::MAX_LAYERS,
+{ unimplemented!() }
+
+//@ fragment parser/src/cfg/switch.rs fn parse_switch_case_bool block-after `if let Some(a) = op_expr.atom(s.vars()) {` as compile_key_atom
+//@@ header
+fn compile_key_atom(op_expr: &SExpr, ops: &mut Vec<OpCode>, s: &ParserState, a: &str) -> Result<()>
+//@@ resub R39 1 /str_to_oscode\(a\)\.ok_or_else\(\|\| anyhow_expr!\([^;]*?\)\)\?/ => `verif_key_of_name(a)?`
+//@@ ret r
+//@@ spec
+    ensures
+        r is Err ==> final(ops)@ == old(ops)@,
+        r is Ok ==> final(ops)@.len() == old(ops)@.len() + 1
+            && final(ops)@.subrange(0, old(ops)@.len() as int) == old(ops)@
+            // a bare key name is an "this key is active" test of that key
+            && spec_decode(final(ops)@[old(ops)@.len() as int].0, None) == OpCodeType::KeyCode(key_of_name(a).kc() as u16),
+
+//@ fragment parser/src/cfg/switch.rs fn parse_switch_case_bool block-after `AllowedListOps::KeyHistory => {` as compile_key_history_arm
+//@@ header
+fn compile_key_history_arm(op_expr: &SExpr, ops: &mut Vec<OpCode>, s: &ParserState, l: &[SExpr]) -> Result<()>
+//@@ macro-stmt R13 bail_expr => `return Err(verif_bail());`
+//@@ resub R39 1 /l\[1\]\s*\.atom\(s\.vars\(\)\)\s*\.and_then\(str_to_oscode\)\s*\.ok_or_else\(\|\| anyhow_expr!\([^;]*?\)\)\?/ => `verif_key(&l[1], s)?`
+//@@ ret r
+//@@ spec
+    ensures
+        r is Err ==> final(ops)@ == old(ops)@,
+        r is Ok ==> l@.len() == 3 && final(ops)@.len() == old(ops)@.len() + 1
+            && final(ops)@.subrange(0, old(ops)@.len() as int) == old(ops)@
+            && 1 <= u8_of(l@[2], *s) <= 8
+            // "the n-th most recent key was", counting from 1 in the configuration
+            && spec_decode(final(ops)@[old(ops)@.len() as int].0, None)
+                == OpCodeType::HistoricalKeyCode(HistoricalKeyCode { key_code: key_of(l@[1], *s).kc() as u16, how_far_back: (u8_of(l@[2], *s) - 1) as u8 }),
+//@@ before 1 `Ok(())`
+    proof { lemma_bits_classes(ops@[ops@.len() - 1].0); }
+
+//@ fragment parser/src/cfg/switch.rs fn parse_switch_case_bool block-after `AllowedListOps::Layer | AllowedListOps::BaseLayer => {` as compile_layer_arm
+//@@ header
+fn compile_layer_arm(op_expr: &SExpr, ops: &mut Vec<OpCode>, s: &ParserState, l: &[SExpr], op: AllowedListOps) -> Result<()>
+//@@ macro-stmt R13 bail_expr => `return Err(verif_bail());`
+//@@ resub R39 1 /l\[1\]\s*\.atom\(s\.vars\(\)\)\s*\.and_then\(\|atom\| s\.layer_idxs\.get\(atom\)\)\s*\.map\(\|idx\| \{\s*assert!\(\*idx < MAX_LAYERS\);\s*\*idx as u16\s*\}\)\s*\.ok_or_else\(\|\| anyhow_expr!\([^;]*?\)\)\?/ => `verif_layer_idx(&l[1], s)?`
+//@@ resub R19 1 /ops\.extend\(&\[op1, op2\]\);/ => `verif_extend2(ops, op1, op2);`
+//@@ ret r
+//@@ spec
+    requires op is Layer || op is BaseLayer,
+    ensures
+        r is Err ==> final(ops)@ == old(ops)@,
+        r is Ok ==> l@.len() == 2 && final(ops)@.len() == old(ops)@.len() + 2
+            && final(ops)@.subrange(0, old(ops)@.len() as int) == old(ops)@
+            // `layer` tests the topmost active layer, `base-layer` the default layer
+            && spec_decode(final(ops)@[old(ops)@.len() as int].0, Some(final(ops)@[old(ops)@.len() as int + 1]))
+                == (if op is Layer { OpCodeType::Layer(layer_of(l@[1], *s)) } else { OpCodeType::BaseLayer(layer_of(l@[1], *s)) }),
+
+// the six leaf keywords of the dispatch closure: each name selects its own arm
+//@ strtable-variants parser/src/cfg/switch.rs parse_switch_case_bool parser/src/cfg/switch.rs AllowedListOps key-history|key-timing|input|input-history|layer|base-layer leaf_kw_table
+//@ raw
+proof fn a8_leaf_names_select_their_arm()
+    ensures
+        // names sorted: base-layer, input, input-history, key-history, key-timing, layer
+        leaf_kw_table().len() == 6,
+        leaf_kw_table()[0] is BaseLayer, leaf_kw_table()[1] is Input, leaf_kw_table()[2] is InputHistory,
+        leaf_kw_table()[3] is KeyHistory, leaf_kw_table()[4] is KeyTiming, leaf_kw_table()[5] is Layer,
+{
+}
+
+// the key-type names (a string match outside Verus): the table is READ from the arms of both
+// leaf forms, sorted by (name, variant); `fake` is the legacy name of `virtual`
+//@ strtable-variants parser/src/cfg/switch.rs parse_switch_case_bool parser/src/cfg/switch.rs InputType real|fake|virtual keytype_table
+//@ raw
+proof fn a7_key_type_names()
+    ensures
+        keytype_table().len() == 6,
+        keytype_table()[0] is Virtual && keytype_table()[1] is Virtual,   // fake, fake
+        keytype_table()[2] is Real && keytype_table()[3] is Real,         // real, real
+        keytype_table()[4] is Virtual && keytype_table()[5] is Virtual,   // virtual, virtual
+{
+}
+
 // the keyword dispatch (a closure over string literals, outside Verus): its table is READ from
 // the match arms `"or" => Some(AllowedListOps::Or)` .. and the obligation is that each of the three
 // operator names denotes its own operator
